@@ -231,19 +231,25 @@ def run(ctx, chk):
         for k, pa in enumerate(cache.get(name)):
             st = pa.st
             acc = [e for e in pa.events if e.kind in ("load", "store") and index_of(e.args[0])[1] == I]
-            inb = None
+            # what the path knows about index vs size: the relations still possible, however the tests are ordered / spelled
+            rel = {"lt", "eq", "gt"}
+            tested = False
             for t, truth, _ in pa.facts:
-                if t[0] == "icmp" and t[2] == I and isinstance(t[3], tuple) and t[3][0] == "ld" and t[3][1] == ("arg", 0) and t[3][2] == end_off:
-                    if t[1] == "uge":
-                        inb = not truth
-                    elif t[1] == "ult":
-                        inb = truth
-                    elif t[1] == "ugt" and truth:
-                        inb = False
-                    elif t[1] == "ule" and not truth:
-                        inb = False
-                    elif t[1] == "eq" and truth:
-                        inb = "append"
+                if t[0] == "icmp" and len(t) == 4:
+                    l_, r_ = t[2], t[3]
+                    is_size = lambda x: isinstance(x, tuple) and x[0] == "ld" and x[1] == ("arg", 0) and x[2] == end_off  # noqa: E731
+                    if l_ == I and is_size(r_):
+                        pred = t[1]
+                    elif r_ == I and is_size(l_):
+                        pred = {"ult": "ugt", "ugt": "ult", "ule": "uge", "uge": "ule"}.get(t[1], t[1])
+                    else:
+                        continue
+                    sat = {"ult": {"lt"}, "ule": {"lt", "eq"}, "ugt": {"gt"}, "uge": {"gt", "eq"}, "eq": {"eq"}, "ne": {"lt", "gt"}}.get(pred)
+                    if sat is None:
+                        continue
+                    tested = True
+                    rel &= sat if truth else ({"lt", "eq", "gt"} - sat)
+            inb = None if not tested else (True if rel == {"lt"} else ("append" if rel == {"eq"} else (False if rel and rel <= {"gt", "eq"} and "gt" in rel else None)))
             for e in acc:
                 nidx += 1
                 ok = inb is True
